@@ -1,6 +1,6 @@
 (* Proofs about the trace semantics Sem/Trace.v: it erases to the reference semantics wherever that
    is decided (and then the trace is empty: a decided reference evaluation reaches no host function). *)
-From P2 Require Import Base.Prelude Base.PreludeProofs Sem.Num Sem.Syntax Sem.Ops Sem.Lib Sem.Ref Sem.Gen Sem.Sim Sem.RelProofs Sem.GenProofs Sem.Trace.
+From P2 Require Import Base.Prelude Base.PreludeProofs Sem.Num Sem.Syntax Sem.Ops Sem.Lib Sem.Ref Sem.Gen Sem.Sim Sem.RelProofs Sem.GenProofs Sem.RefMono Sem.Trace.
 Require Import Lia.
 
 Definition tdecided {A} (r : res A) : Prop := match r with OOF | Unsup => False | _ => True end.
@@ -189,7 +189,7 @@ Proof.
 Qed.
 
 Lemma q_app_dle : app_dle (r_app ev) (q_app tev).
-Proof. intros c vs N. unfold q_app. rewrite (t_app_erases c vs N). reflexivity. Qed.
+Proof. intros c vs N. unfold q_app. rewrite (t_app_erases c vs N). unfold quiet. cbn [fst snd]. destruct (r_app ev c vs); cbn in N; try reflexivity; destruct N. Qed.
 
 Lemma t_list_erases env l : terases (r_list ev env l) (t_list tev env l).
 Proof.
@@ -280,4 +280,129 @@ Corollary teval_fst known host n env a :
   fst (teval known host n env a) = eval known n env a /\ snd (teval known host n env a) = [].
 Proof. intros D. rewrite (eval_teval known host n env a D). auto. Qed.
 
+
+(* ---------- fuel monotonicity of the trace semantics ---------- *)
+
+Definition tle {A} (p1 p2 : tres A) : Prop := fst p1 <> OOF -> p2 = p1.
+
+Lemma tle_refl {A} (p : tres A) : tle p p.
+Proof. intros _. reflexivity. Qed.
+
+Lemma tle_bind {A B} (p1 p2 : tres A) (k1 k2 : A -> tres B) :
+  tle p1 p2 -> (forall a, tle (k1 a) (k2 a)) -> tle (tbind p1 k1) (tbind p2 k2).
+Proof.
+  intros H K N. assert (N1 : fst p1 <> OOF).
+  { intros E. apply N. unfold tbind. rewrite E. reflexivity. }
+  rewrite (H N1). unfold tbind in *. destruct (fst p1); auto. rewrite (K a N). reflexivity.
+Qed.
+
+Section TMono.
+Variable known : list (N * list name).
+Variable host : name -> list value -> res value.
+Variables tev1 tev2 : list (name * value) -> ast -> tres value.
+Hypothesis HE : forall env a, tle (tev1 env a) (tev2 env a).
+
+Lemma t_app_tle c vs : tle (t_app tev1 c vs) (t_app tev2 c vs).
+Proof.
+  destruct c; cbn [t_app]; try apply tle_refl.
+  destruct (Nat.eqb (length vs) (length ps)); [apply HE|apply tle_refl].
+Qed.
+
+Lemma q_app_le : RefMono.app_le (q_app tev1) (q_app tev2).
+Proof.
+  intros c vs N. unfold q_app in *. assert (N1 : fst (t_app tev1 c vs) <> OOF).
+  { intros E. apply N. unfold quiet. rewrite E. reflexivity. }
+  rewrite (t_app_tle c vs N1). reflexivity.
+Qed.
+
+Lemma t_list_tle env l : tle (t_list tev1 env l) (t_list tev2 env l).
+Proof.
+  induction l as [|x l IH]; cbn [t_list]; [apply tle_refl|].
+  apply tle_bind; [apply HE|]. intros v. apply tle_bind; [exact IH|]. intros; apply tle_refl.
+Qed.
+
+Lemma t_switch_tle env sv d cases : tle (t_switch tev1 env sv d cases) (t_switch tev2 env sv d cases).
+Proof.
+  induction cases as [|[cc cr] cases IH]; cbn [t_switch]; [apply HE|].
+  apply tle_bind; [apply HE|]. intros cv.
+  destruct (equal_fg sv cv) as [[|]| | | |]; try apply tle_refl; [apply HE|exact IH].
+Qed.
+
+Lemma t_map_tle env m : forall acc, tle (t_map tev1 env m acc) (t_map tev2 env m acc).
+Proof.
+  induction m as [|[k x] m IH]; intros acc; cbn [t_map]; [apply tle_refl|].
+  apply tle_bind; [apply HE|]. intros; apply IH.
+Qed.
+
+Lemma tstep_tle env a : tle (tstep known host tev1 env a) (tstep known host tev2 env a).
+Proof.
+  destruct a; cbn [tstep].
+  - apply tle_refl.
+  - apply tle_refl.
+  - apply tle_bind; [apply HE|]. intros; apply HE.
+  - apply tle_bind; [apply HE|]. intros cv. destruct cv; try apply tle_refl. destruct b; apply HE.
+  - apply tle_bind; [apply HE|]. intros; apply t_switch_tle.
+  - (* try *) intros N.
+    assert (N1 : fst (tev1 env a1) <> OOF).
+    { intros E. apply N. rewrite E. exact E. }
+    rewrite (HE _ _ N1). destruct (fst (tev1 env a1)) eqn:E1; auto.
+    revert N. apply tle_bind; [apply tle_refl|]. intros _.
+    apply tle_bind; [apply HE|]. intros cv. destruct cv; try apply tle_refl.
+    destruct ps as [|p [|? ?]]; try apply tle_refl. apply t_app_tle.
+  - apply tle_bind; [apply HE|]. intros; apply tle_refl.
+  - destruct (str_eqb op op_and).
+    { apply tle_bind; [apply HE|]. intros av.
+      destruct av; try (apply tle_bind; [apply HE|intros; apply tle_refl]).
+      destruct b; [|apply tle_refl]. apply tle_bind; [apply HE|intros; apply tle_refl]. }
+    destruct (str_eqb op op_or).
+    { apply tle_bind; [apply HE|]. intros av.
+      destruct av; try (apply tle_bind; [apply HE|intros; apply tle_refl]).
+      destruct b; [apply tle_refl|]. apply tle_bind; [apply HE|intros; apply tle_refl]. }
+    apply tle_bind; [apply HE|]. intros. apply tle_bind; [apply HE|intros; apply tle_refl].
+  - apply tle_refl.
+  - apply tle_bind; [apply t_list_tle|intros; apply tle_refl].
+  - apply tle_bind; [apply HE|]. intros. apply tle_bind; [apply HE|intros; apply tle_refl].
+  - apply t_map_tle.
+  - apply tle_bind; [apply HE|intros; apply tle_refl].
+  - apply tle_bind; [apply HE|]. intros fv0. destruct fv0; try apply tle_refl.
+    destruct (Nat.eqb (length args) (length ps)); [|apply tle_refl].
+    apply tle_bind; [apply t_list_tle|]. intros; apply t_app_tle.
+  - destruct (static_arity f) as [ar|].
+    + destruct (arity_ok ar (length args)); [|apply tle_refl].
+      apply tle_bind; [apply t_list_tle|intros; apply tle_refl].
+    + apply tle_bind; [apply t_list_tle|intros; apply tle_refl].
+  - apply tle_bind; [apply HE|]. intros rv.
+    destruct (field_of rv mname) as [[cv k]|].
+    + destruct (Nat.eqb (length args) k); [|apply tle_refl].
+      apply tle_bind; [apply t_list_tle|]. intros; apply t_app_tle.
+    + destruct (method_arity rv mname) as [ar|]; [|apply tle_refl].
+      destruct (arity_ok ar (length args)); [|apply tle_refl].
+      apply tle_bind; [apply t_list_tle|]. intros vs N. cbn [tret fst] in N.
+      pose proof (RefMono.run_method_le _ _ q_app_le rv mname vs N) as E.
+      set (r1 := run_method (q_app tev1) rv mname vs) in *.
+      set (r2 := run_method (q_app tev2) rv mname vs) in *.
+      clearbody r1 r2. subst r2. reflexivity.
+Qed.
+
+End TMono.
+
+Theorem teval_mono known host : forall n m env a,
+  n <= m -> tle (teval known host n env a) (teval known host m env a).
+Proof.
+  induction n as [|n IH]; intros m env a L.
+  - intros N. exfalso. apply N. reflexivity.
+  - destruct m as [|m]; [lia|]. rewrite !teval_S. apply tstep_tle.
+    intros env0 a0. apply IH. lia.
+Qed.
+
+Corollary teval_agree known host n m env a :
+  fst (teval known host n env a) <> OOF -> fst (teval known host m env a) <> OOF ->
+  teval known host m env a = teval known host n env a.
+Proof.
+  intros Hn Hm. destruct (Nat.le_ge_cases n m) as [L|L].
+  - apply (teval_mono known host n m env a L Hn).
+  - symmetry. apply (teval_mono known host m n env a L Hm).
+Qed.
+
 Print Assumptions eval_teval.
+Print Assumptions teval_mono.
